@@ -56,6 +56,31 @@ Definition ante_msg (g : grants) (spec : msgspec) (m : msg) : bool :=
     || existsb (granted g (m_creator m)) (m_meta_signers m)
   else true.
 
+(** ** The decorator over a whole transaction.
+    [tx] is the list of messages the decorator iterates over: the messages of the transaction with
+    the messages nested in authz.MsgExec flattened in (the MsgExec wrapper itself carries no
+    metadata and is skipped, so it is left out). The loop is written with the state it could carry
+    from one iteration to the next made explicit: [lk] is the grantee lookup table. On a correct
+    tree the table is declared inside the loop body ([carry = false]: it starts empty for every
+    message); T extracts from the Go AST whether it is ([Gen.C03.ante_lookup_carried]). *)
+Definition memz (x : Z) (l : list Z) : bool := existsb (Z.eqb x) l.
+
+Definition grantees_of (g : grants) (granter : principal) : list principal :=
+  map snd (filter (fun x => fst x =? granter) g).
+
+Fixpoint ante_loop (carry : bool) (g : grants) (lk : list principal) (tx : list (msgspec * msg)) : bool :=
+  match tx with
+  | [] => true
+  | (spec, m) :: r =>
+    if negb (ms_has_meta spec) then ante_loop carry g lk r
+    else if existsb (Z.eqb (m_creator m)) (m_meta_signers m) then ante_loop carry g lk r
+    else
+      let lk' := grantees_of g (m_creator m) ++ (if carry then lk else []) in
+      if existsb (fun sg => memz sg lk') (m_meta_signers m) then ante_loop carry g lk' r else false
+  end.
+
+Definition ante_tx (carry : bool) (g : grants) (tx : list (msgspec * msg)) : bool := ante_loop carry g [] tx.
+
 (** State: per principal, a version counter of everything held in its name ([owned]) and of what
     it has merely been given ([inbox]: funds, a licence, an admin role handed over). *)
 Record state := MkState { owned : list (principal * Z); inbox : list (principal * Z) }.
@@ -113,6 +138,21 @@ Definition deliver (auth : principal) (g : grants) (spec : msgspec) (m : msg) (s
 
 Definition state_after (o : outcome) (s : state) : state :=
   match o with Done s' => s' | _ => s end.
+
+(** Delivery of a transaction: the decorator over all its messages, then the handlers one after
+    the other; all-or-nothing (baseapp's runMsgs on a cache context). *)
+Fixpoint handle_all (auth : principal) (tx : list (msgspec * msg)) (s : state) : option state :=
+  match tx with
+  | [] => Some s
+  | (spec, m) :: r =>
+    if forallb (guard_ok auth m) (ms_rows spec)
+    then handle_all auth r (apply_rows auth m (ms_rows spec) s)
+    else None
+  end.
+
+Definition deliver_tx (carry : bool) (auth : principal) (g : grants) (tx : list (msgspec * msg)) (s : state) : outcome :=
+  if negb (ante_tx carry g tx) then RejectedAnte
+  else match handle_all auth tx s with Some s' => Done s' | None => RejectedGuard end.
 
 (** A history: each step has its own grant set (grants change over time), message type and message. *)
 Definition op := (grants * msgspec * msg)%type.
